@@ -29,7 +29,7 @@ import core
 import gen
 import c13_lib as L
 
-PROOF_MODULES = ["UnytProofs.C13"]
+PROOF_MODULES = ["UnytProofs.C13", "UnytProofs.C13Rules"]
 HERE = os.path.dirname(os.path.abspath(__file__))
 
 REG_ROUTES = ["copy_registry", "deepcopy_registry", "json", "pickle_registry"]
@@ -52,6 +52,7 @@ ADDS = [("foo", 2.0, "length", 0.0, 1), ("foo", 5.0, "length", 0.0, 1), ("zot", 
 SYMS = ["foo", "zot", "qux", "pc", "au", "kfoo", "mile", "nosuch"]
 MIXED_FORMS = ["unit*", "unit/", "arr*", "arr/", "arr+", "qty*"]
 LOOSE_FORMS = {"arr*", "arr/", "arr+", "qty*"}
+RULE_OF = {"arr*": "_multiply_units", "arr/": "_divide_units", "qty*": "_multiply_units"}
 
 
 # --------------------------------------------------------------------------------------
@@ -291,8 +292,12 @@ def model_lines(st, out, dict_cells, key=None):
         return []  # hundreds of look-ups through r: the comparison goes on in `loose` mode (rows only)
     if k == "mixed":
         a, b, form, qa, qb = st[1:]
-        return [f"c13.op\t{a}\tunit\t{qa}", f"c13.op\t{b}\tunit\t{qb}",
-                f"c13.mixed\t{a}\t{b}\t{key or '?'}\t{core.f2b(1.0)}\t{core.f2b(0.0)}\t{dimvec('length')}"]
+        lines = [f"c13.op\t{a}\tunit\t{qa}", f"c13.op\t{b}\tunit\t{qb}"]
+        if form in RULE_OF and key:
+            # the memoised rule behind the array form: operand classes (spelling + contents of the registry) and registries
+            lines.append(f"c13.rule\t{RULE_OF[form]}\t{key[0]}\t{a}\t{key[1]}\t{b}")
+        lines.append(f"c13.mixed\t{a}\t{b}\t?\t{core.f2b(1.0)}\t{core.f2b(0.0)}\t{dimvec('length')}")
+        return lines
     raise ValueError(st)
 
 
@@ -401,6 +406,15 @@ def real_trace(hist):
                 key = str((Unit(st[2], registry=t) * Unit(st[3], registry=t)).expr)
             except Exception:  # noqa: BLE001
                 key = None
+        if st[0] == "mixed" and st[1] < len(W.regs) and st[2] < len(W.regs):
+            import zlib
+
+            def cls(q, i):
+                d = W.dump(i)
+                dg = rows_digest({k: v for k, v in d["rows"].items() if k not in d["derived"]}, base_rows)
+                return zlib.crc32((q + "|" + json.dumps(sorted(dg.items()))).encode()) % 1000000007
+
+            key = (cls(st[4], st[1]), cls(st[5], st[2]))
         out, created, through = W.step(st)
         if (st[0] == "mixed" and st[3] in LOOSE_FORMS) or st[0] == "namespace":
             loose = True
@@ -508,6 +522,16 @@ def correspond(trace, replies):
                 ok = last[0] == "err" and last[1] == out[1]
             elif st[0] == "mixed" and out[0] == "err":
                 ok = True  # refusals of the arithmetic itself are other properties' subject
+            elif st[0] == "mixed" and out[0] == "mixed":
+                ok = last[0] == "unitin"
+                rl = [r_ for r_ in reps if r_ and r_[0] == "reg"]
+                if rl and out[4] and st[1] != st[2]:
+                    # the memoised rule: the model's registry of the answer against the implementation's (warm caches);
+                    # compared when the left registry knows the right operand's symbol (else the kept fallback applies)
+                    mleft = int(rl[-1][1]) == st[1]
+                    if mleft != (out[2] == "left"):
+                        dis.append(f"step {k} {st}: memoised rule answers in the {'left' if mleft else 'other'} registry in the model, "
+                                   f"{out[2]} in the implementation")
             elif st[0] == "defunit" and out[0] == "err" and last[0] == "done" and not t.get("has_base", True):
                 # `define_unit` reduces its value with the registry's m / kg / s: a registry without them is
                 # outside the model of the value (counted, comparison of this history stops here)
